@@ -51,6 +51,11 @@ def handle (st : DrvState) (op : String) (a : List Int) : DrvState × String :=
     (st, s!"{h} {nok}")
   | "crc", bs => (st, toString (Crc.crc (bs.map Int.toNat)))
   | "spec_crc", bs => (st, toString (Spec.crc16 (bs.map Int.toNat)))
+  | "crc_step", [r, b] => (st, toString (Crc.update r.toNat b.toNat))
+  | "crc_step_digest", [lo, hi] =>
+    let h := (List.range (hi.toNat - lo.toNat)).foldl (fun h k =>
+      (List.range 256).foldl (fun h b => (h * 1000003 + Crc.update (lo.toNat + k) b) % 1000000007) h) 7
+    (st, toString h)
   | "crc_bytes", bs => (st, joinNats (Crc.getBytes ((bs.map Int.toNat).foldl Crc.update Crc.reset)))
   | "ileave_soft", v => (st, joinInts (Cond.interleaveSoft v))
   | "deileave_soft", v => (st, joinInts (Cond.deinterleaveSoft v))
